@@ -42,6 +42,24 @@ def make(kernel, d, K, periodic, reflective, rng, diagonal=False):
     return r, ms
 
 
+def steer(z):
+    """np.random.randn stand-in: the fixed vector z for a (d,) request, z in every row for an (n, d) request (batched kernels)"""
+    z = np.asarray(z, dtype=float)
+
+    def randn(*s):
+        if len(s) >= 1 and s[-1] == len(z) and len(s) <= 2:
+            return np.broadcast_to(z, s).copy()
+        return z.copy()
+    return randn
+
+
+def steer_gamma(g):
+    def gamma(shape=None, scale=1.0, size=None, *a, **k):
+        n = np.size(shape) if size is None else size
+        return float(g) if (size is None and np.ndim(shape) == 0 and np.ndim(scale) == 0) else np.full(np.broadcast(np.asarray(shape), np.asarray(scale)).shape if size is None else size, float(g))
+    return gamma
+
+
 def check_propose(r, ms, kernel, k):
     """the real _propose against its specification, with the draws intercepted"""
     d = r.n_dim
@@ -196,8 +214,9 @@ def hard_boundary_rejection():
     on = np.random.randn
 
     def randn(*s):
-        calls["n"] += 1
-        return on(*s)
+        v = on(*s)
+        calls["n"] += int(np.size(v))          # numbers drawn, however they are batched
+        return v
     np.random.randn = randn
     r._check_convergence = lambda acc: True
     r._adapt_sigma = lambda c, m: None
@@ -205,8 +224,8 @@ def hard_boundary_rejection():
         out = r.run()
     finally:
         np.random.randn = on
-    if calls["n"] != r.n_walkers:
-        return f"{calls['n']} normal vectors drawn for {r.n_walkers} walkers in one step: proposals are redrawn"
+    if calls["n"] > r.n_walkers * r.n_dim:
+        return f"{calls['n']} normal variates drawn for {r.n_walkers} walkers of dimension {r.n_dim} in one step: proposals are redrawn"
     if ((out[0] < 0) | (out[0] > 1)).any():
         return "a walker left the unit cube"
     return None
@@ -225,8 +244,8 @@ def whole_move_rejection():
         want_inc = np.array([0.4, 0.05])                     # out in coordinate 0, inside in coordinate 1
         z = np.linalg.solve(0.5 * L, want_inc) if kernel == "rwm" else np.linalg.solve(L, want_inc)
         o_randn, o_rand, o_gamma = np.random.randn, np.random.rand, np.random.gamma
-        np.random.randn = lambda *s: z.copy()
-        np.random.gamma = lambda *a, **k: 4.0
+        np.random.randn = steer(z)
+        np.random.gamma = steer_gamma(4.0)
         np.random.rand = lambda *s: np.zeros(s)                # accept whenever alpha > 0
         r._check_convergence = lambda acc: True
         r._adapt_sigma = lambda c, m: None
@@ -488,8 +507,10 @@ def wiring():
                 props.append(np.array(v, dtype=float))
                 return v
             o_randn, o_gamma = np.random.randn, np.random.gamma
-            np.random.randn = lambda *s: np.array([1.0, 0.0])
-            np.random.gamma = lambda *a, **k: 1.0
+            np.random.randn = steer([1.0, 0.0])
+            np.random.gamma = steer_gamma(1.0)
+            st_w = np.random.get_state()
+            np.random.seed(777)          # any other variate the kernel draws (e.g. a chi-square instead of a gamma) is the same in both runs
             try:
                 parallel_mcmc(u=u, x=u.copy(), logl=np.zeros(2), blobs=None, assignments=np.zeros(2, dtype=int), beta=1.0, mode_stats=ms,
                               log_likelihood=lambda x: (np.zeros(len(x)), None), prior_transform=pt, progress_bar=None, n_steps=0, n_max=0,
@@ -504,12 +525,14 @@ def wiring():
             r0, _ = (RWMRunner if sample == "rwm" else TPCNRunner), None
             rr = r0(u, u.copy(), np.zeros(2), None, np.zeros(2, dtype=int), 1.0, ms, lambda x: (np.zeros(len(x)), None), lambda v: v, None, 0, 0,
                     None, None, False)
-            np.random.randn = lambda *s: np.array([1.0, 0.0])
-            np.random.gamma = lambda *a, **k: 1.0
+            np.random.randn = steer([1.0, 0.0])
+            np.random.gamma = steer_gamma(1.0)
+            np.random.seed(777)
             try:
                 raw = rr._propose(0)[0]
             finally:
                 np.random.randn, np.random.gamma = o_randn, o_gamma
+                np.random.set_state(st_w)
             if not raw > 1.0:
                 continue
             want = raw % 1.0 if kind == "periodic" else (2.0 - raw if raw < 2 else None)
